@@ -33,17 +33,20 @@ def atom : PyVal → Option Atom
   | .other t => some (.other t)
   | _ => none
 
-/-- The members of a set / frozenset / list / tuple. -/
+/-- The members of a set / frozenset / list / tuple / set-like / sequence-like object. -/
 def elems : PyVal → Option (List PyVal)
   | .set xs => some xs
+  | .setlike xs => some xs
+  | .seqlike xs => some xs
   | .frozenset xs => some xs
   | .list xs => some xs
   | .tuple xs => some xs
   | _ => none
 
-/-- The items of a dict / frozendict. -/
+/-- The items of a dict / frozendict / mapping-like object. -/
 def entries : PyVal → Option (List (PyVal × PyVal))
   | .dict kvs => some kvs
+  | .maplike kvs => some kvs
   | .frozendict kvs => some kvs
   | _ => none
 
